@@ -35,12 +35,32 @@ void vf_fuzz_one(const uint8_t* data, size_t size)
 	std::sort(cuts.begin(), cuts.end());
 
 	Var whole;
+	std::string why;
 	{
 		XdlParser p;
 		c06::ExactC w(t.data(), t.size());
 		whole = p.decode(w.p);
+		// reuse of the SAME parser object: after a complete document, reset() gives the behaviour of a fresh parser
+		// (only then -- see C06_walk.h), for the text in chunks and once more whole
+		if (whole.ok() && !c06::may_leave_surrogate_pending(t)) {
+			p.reset();
+			size_t prev = 0;
+			for (size_t i = 0; i <= cuts.size(); i++) {
+				size_t e = i < cuts.size() ? cuts[i] : t.size();
+				c06::ExactC chunk(t.data() + prev, e - prev);
+				p.parse(chunk.p);
+				prev = e;
+			}
+			c06::ExactC sp(" ", 1);
+			p.parse(sp.p);
+			Var r = p.value();
+			VF_ORACLE(c06::same(whole, r, why), "reused parser after reset() (chunked) differs from the first use: ", why, "; got ", c06::show(r), "; text ", vf::show(t, 200));
+			p.reset();
+			Var r2 = p.decode(w.p);
+			VF_ORACLE(c06::same(whole, r2, why), "reused parser after reset() (whole, third use) differs from the first use: ", why, "; got ", c06::show(r2), "; text ", vf::show(t, 200));
+			vf::stats().cls("reused_after_reset()", 2);
+		}
 	}
-	std::string why;
 	{
 		Var j = Json::decode(String(t.c_str()));
 		VF_ORACLE(c06::same(whole, j, why), "Json::decode differs from XdlParser::decode: ", why, "; text ", vf::show(t, 200));
